@@ -214,6 +214,14 @@ func (o *out) str(name string, s string) {
 	fmt.Fprintf(&o.sb, "def %s : String := %s\n", leanIdent(name), strconv.Quote(s))
 }
 
+func (o *out) strs(name string, v []string) {
+	var q []string
+	for _, s := range v {
+		q = append(q, strconv.Quote(s))
+	}
+	fmt.Fprintf(&o.sb, "def %s : List String := [%s]\n", leanIdent(name), strings.Join(q, ", "))
+}
+
 func need(env map[string]constant.Value, pkg, name string) constant.Value {
 	v, ok := env[name]
 	if !ok {
